@@ -17,7 +17,7 @@ SHRINK = False          # a case is (scenario, schedule); schedules are not line
 CASE_TIMEOUT = 5.0
 MODEL_CASE_TIMEOUT = 5.0
 RULE = ("scenarios (all 16 combinations of SINGLE_WRITER / SINGLE_READER / READ_BUSY_LOOP / MSG_READ_ONCE incl. the "
-        "rejected one, optionally with the deprecated 0x04 bit; requested capacity 2..8; 1..3 writers x 1..3 readers "
+        "rejected one, optionally with the deprecated 0x04 bit; requested capacity 2..8 (rounded 2/4/8); 1..3 writers x 1..3 readers "
         "(1 where the flag promises a single one); 1..4 messages per writer; reader indices started at 2^32-3 (or 0, or "
         "2^32-3-k*cap) so that the 32-bit index wraps; harness throttle on) x seeded random schedules (context-switch "
         "density 20/50/80 %) run on the real code under the deterministic scheduler; every trace replayed on the "
@@ -127,11 +127,12 @@ def gen_params(ctx):
 
 def _scenario(rng, throttle, flag=None):
     if flag is None:
-        flag = rng.choice([0, 1, 2, 3, 8, 9, 10, 11, 16, 17, 18, 19, 24, 25, 26, 27])
-        if rng.chance(1, 8):
-            flag |= 0x04        # deprecated WRITE_BUSY_LOOP bit: ignored by the code
-    capreq = rng.range(2, 8)
-    cap = next_pow2(capreq)
+        # mode first (uniform over the 8 accepted combinations, the rejected one 1 in 16), then any flag value
+        # that selects it (includes the deprecated 0x04 bit and redundant bits)
+        target = None if rng.chance(1, 16) else (rng.below(2), rng.below(4))
+        flag = rng.choice([f for f in range(32) if py_mode(f) == target])
+    cap = rng.choice([2, 2, 4, 4, 4, 8, 8])
+    capreq = rng.range(cap // 2 + 1, cap) if cap > 2 else 2
     mode = py_mode(flag)
     if mode is None:
         return ["rb %d %d %d 0" % (flag, capreq, throttle), "w 1", "r 1:0"]
@@ -183,8 +184,8 @@ def corpus_cases(ctx):
 
 def generate(rng, tier):
     cases = []
-    npos = 1100 if tier == "quick" else 24000
-    nneg = 250 if tier == "quick" else 5000
+    npos = 5000 if tier == "quick" else 60000
+    nneg = 1200 if tier == "quick" else 15000
     for i in range(npos):
         scen = _scenario(rng, 1)
         cases.append(_mk("pos-%d" % i, scen, "rand %d %d 0 0" % (rng.below(1 << 30), rng.choice([20, 50, 80]))))
